@@ -375,7 +375,9 @@ func fenceMatchNearbys(
 	s *Server, fence *liveFenceSwitches,
 	obj *object.Object,
 ) (nearbys []roamMatch) {
-	if obj == nil {
+	if obj == nil || !obj.IsSpatial() || obj.Geo().Empty() {
+		// a string value or an empty geometry has no position: nothing is
+		// near it (its Center() would read as 0,0)
 		return nil
 	}
 	col, _ := s.cols.Get(fence.roam.key)
